@@ -270,6 +270,32 @@ func ruleA6(c *Ctx) {
 	isDictMethod := func(f *ssa.Function) bool {
 		return f != nil && f.Signature.Recv() != nil && p.isPkgType(f.Signature.Recv().Type(), "redisDict")
 	}
+	// the result of a removal from the keyspace says whether an object was stored under the name — expired or not;
+	// using it (to count, to decide) is a read of the keyspace that ignores expiry
+	for _, fn := range p.SrcFuncs() {
+		if isDictMethod(fn) {
+			continue
+		}
+		k := 0
+		for _, in := range instrsOf(fn) {
+			call, ok := in.(*ssa.Call)
+			if !ok || len(call.Call.Args) == 0 {
+				continue
+			}
+			cal := call.Call.StaticCallee()
+			if cal == nil || !mm.dictRem[cal] {
+				continue
+			}
+			if _, rf := loadedField(call.Call.Args[0]); rf != mm.fKeyspace {
+				continue
+			}
+			if len(referrers(call)) == 0 {
+				continue
+			}
+			k++
+			c.S.Bad("A6-expiry", fmt.Sprintf("%s:remove-result#%d", fnName(fn), k), c.Pos(call.Pos()), fmt.Sprintf("%s uses the result of removing a name from the keyspace (was something stored?) — that is true for a key whose deadline has passed as well: the command counts or reports a dead key as present", fnName(fn)))
+		}
+	}
 	rawLookups := map[*ssa.Function][]*ssa.Call{} // function -> its keyspace get calls
 	for _, fn := range p.SrcFuncs() {
 		if isDictMethod(fn) {
